@@ -17,6 +17,26 @@ open SqlglotModel.Generated.C15
 /-- `sorted(...)` imposes a canonical order: any two enumerations of the same multiset sort to the same list -/
 theorem sorted_perm_invariant {xs ys : List Nat} (h : xs.Perm ys) : isort xs = isort ys := isort_perm h
 
+/-- the hypothesis behind it, made explicit: Python's `sorted(xs, key=k)` is stable, so it is independent of the arrival
+    order of `xs` exactly as long as DISTINCT elements never tie on the key (`k` injective on what is sorted); `sorted(xs)`
+    without a key is the instance `k = id` -/
+theorem keyed_sort_perm_invariant (key : Nat → Nat) {xs ys : List Nat} (h : xs.Perm ys)
+    (hinj : ∀ a ∈ xs, ∀ b ∈ xs, key a = key b → a = b) : isortBy key xs = isortBy key ys ∧ isortBy id xs = isort xs :=
+  ⟨isortBy_perm key h hinj, isortBy_id xs⟩
+
+/-- **witness that the hypothesis is needed**: with a key on which two distinct elements tie (`k x = x / 2`: think of
+    `str(node).lower()` on the names `T` and `t`) the result follows the arrival order — for a set, the hash seed -/
+theorem keyed_sort_needs_injective_key :
+    isortBy (· / 2) [2, 3, 0] = [0, 2, 3] ∧ isortBy (· / 2) [3, 2, 0] = [0, 3, 2] ∧ [2, 3, 0].Perm [3, 2, 0] := by
+  refine ⟨by decide, by decide, List.Perm.swap _ _ _⟩
+
+/-- the sort calls of the set-ordering modules (helper.tsort, Simplifier.uniq_sort, …) as extracted from the current source are
+    the audited ones, and in particular `tsort` sorts each layer WITHOUT a key function (finite table, decided completely) -/
+theorem sort_calls_ok :
+    sortCalls = expectedSortCalls ∧
+    ((sortCalls.filter fun e => e.2.1 == "tsort").map fun e => (e.2.2.1, e.2.2.2.1)) = [("sorted(current)", "-")] ∧
+    ((sortCalls.filter fun e => e.2.1 == "Simplifier.uniq_sort").map fun e => e.2.2.2.1) = ["-"] := by decide +kernel
+
 /-- **uniq_sort**: whatever order the operands arrive in (AND / OR / XOR), the connector it leaves has the same operands
     in the same order -/
 theorem uniq_sort_perm_invariant (xor : Bool) {xs ys : List Nat} (h : xs.Perm ys) :
